@@ -85,6 +85,10 @@ def run(tape, scenario, want_c10=False):
     env = Env(tape, with_kernel=True, possible_cpus=possible, online_cpus=online,
               monitor=monitor, cpulist=cpulist)
     world, kernel = env.world, env.kernel
+    if possible == online and scenario == "percpu" and tape.chance("fault/cpu-mask-file", 20):
+        # no usable sysfs (all CPUs are online, so counting those is right), and the
+        # process itself is pinned to a single CPU
+        env.cpulist_fault = tape.pick("fault/cpu-mask-file-how", ["unreadable", "garbage"])
     violations = []
 
     def viol(rule, detail, **params):
